@@ -397,3 +397,7 @@ func vh_C04_L2_init_answered_in_cookie_echoed() {
 	vassert(a.getState() == cookieEchoed, "the state does not change")
 	vcover("end")
 }
+
+// C04.L3b: the handshake retries are bounded by the configured RTO.max, also one below the
+// protocol minimum (= C19.L3b).
+func vh_C04_L3_retries_bounded_by_configured_rto_max() { vh_C19_L3_armed_duration() }
